@@ -220,18 +220,35 @@ func (m *c09Mon) checkDeposit(i int, o L2Op, prev, cur L2View, wevs, devs []L2Ev
 		return
 	}
 	if devs[0].Success {
-		if len(wevs) != 0 || cur.N2 != prev.N2 {
-			m.viol(i, "C09:refund-not-neutral", "credited deposit also recorded a withdrawal")
+		// the only records of a credited deposit are those of withdrawal messages carried by its
+		// hook: as many events as NextL2Sequence advanced, consecutive, each an exact burn
+		nHookW := 0
+		for _, hm := range o.Hook.Sends {
+			if hm.Withdraw {
+				nHookW++
+			}
 		}
-		// total of the denom over all accounts and its supply rise by exactly the amount
-		if di >= 0 {
+		if len(wevs) > nHookW || cur.N2 != prev.N2+uint64(len(wevs)) {
+			m.viol(i, "C09:hook-withdrawal-unannounced", fmt.Sprintf("credited deposit: %d withdrawal events, hook carries %d withdrawals, NextL2Sequence %d -> %d", len(wevs), nHookW, prev.N2, cur.N2))
+		}
+		for d := range tr.Denoms {
+			burnt := new(big.Int)
+			for _, w := range wevs {
+				if w.Denom == tr.Denoms[d] {
+					burnt.Add(burnt, w.Amt)
+				}
+			}
 			sumP, sumC := new(big.Int), new(big.Int)
 			for a := range tr.Accts {
-				sumP.Add(sumP, prev.Bal[a][di])
-				sumC.Add(sumC, cur.Bal[a][di])
+				sumP.Add(sumP, prev.Bal[a][d])
+				sumC.Add(sumC, cur.Bal[a][d])
 			}
-			if new(big.Int).Sub(sumC, sumP).Cmp(o.Amt) != 0 || new(big.Int).Sub(cur.Sup[di], prev.Sup[di]).Cmp(o.Amt) != 0 {
-				m.viol(i, "C09:credit-inexact", "credited deposit did not raise balances and supply by exactly the amount")
+			want := new(big.Int).Neg(burnt)
+			if d == di {
+				want.Add(want, o.Amt)
+			}
+			if new(big.Int).Sub(sumC, sumP).Cmp(want) != 0 || new(big.Int).Sub(cur.Sup[d], prev.Sup[d]).Cmp(want) != 0 {
+				m.viol(i, "C09:credit-inexact", fmt.Sprintf("credited deposit: balances and supply of %s did not move by exactly amount - announced hook withdrawals = %s", tr.Denoms[d], want))
 			}
 		}
 		return
@@ -325,7 +342,25 @@ func genC09(seed uint64, tier string, outdir string) *Report {
 					if r.Chance(10) {
 						txSeq++
 					}
-					hook = e.MakeHookTx(toID, txSeq, !r.Chance(10), []HookSend{{To: uint64(1 + r.Intn(6)), Denom: sc.L2Denoms[di], Amt: sendAmt}})
+					fwd := HookSend{To: uint64(1 + r.Intn(6)), Denom: sc.L2Denoms[di], Amt: sendAmt}
+					msgs := []HookSend{fwd}
+					if have.Sign() > 0 {
+						// a withdrawal carried by the hook (D14): part of the funds goes straight back to L1
+						part := new(big.Int).Add(big.NewInt(1), new(big.Int).Rsh(have, 2))
+						if part.Cmp(l2Two64) >= 0 {
+							part = big.NewInt(7)
+						}
+						wd := HookSend{Withdraw: true, ToL1: sc.L1Addrs[r.Intn(len(sc.L1Addrs))], Denom: sc.L2Denoms[di], Amt: part}
+						switch r.Weighted([]int{40, 20, 20, 20}) {
+						case 1:
+							msgs = []HookSend{wd} // withdraw only
+						case 2:
+							msgs = []HookSend{wd, fwd} // withdraw, then a transfer that may fail: all or nothing
+						case 3:
+							msgs = []HookSend{wd, wd}
+						}
+					}
+					hook = e.MakeHookTx(toID, txSeq, !r.Chance(10), msgs)
 				} else if r.Chance(5) {
 					hook = Hook{Kind: "garbage", Raw: []byte{0xff, 0x01, 0x02}}
 				}
